@@ -54,6 +54,16 @@ def check_generated(job):
         return k, "unknown", {"err": "checker exception: " + traceback.format_exc()[-600:]}, time.time() - t0
 
 
+import re as _re
+
+
+def literal_class(src):
+    """known-finding class of a program text: a NEGATIVE typed literal of a signed type wider than 32 bits"""
+    if _re.search(r"\bint(3[3-9]|[4-9]\d|1[0-3]\d)\(-", src):
+        return " [class neg-literal-in-wide-int]"
+    return ""
+
+
 def const_family(tier):
     """Constant-operand arithmetic at full widths: x op C with boundary constants C written as typed literals
     (the documented literal form).  One run-time operand, so the multiplier miters are linear in x and close."""
@@ -160,6 +170,7 @@ def main():
 
     # ---- witnesses of known findings (fixed programs; reported while they still misbehave)
     WITNESS = {
+        "neg-literal-in-wide-int": ("package main\nfunc main(a, b int64) int64 {\n\treturn (a + int64(-1)) ^ b\n}\n", ["5", "0"], ["4"]),
         "const-shared-across-types": ("package main\nfunc main(a int32, b uint8) (uint8, int32) {\n\treturn b + uint8(200), a + int32(200)\n}\n", ["0", "0"], ["200", "200"]),
     }
     for k in known:
@@ -201,7 +212,7 @@ def main():
                 inconcl.append("counterexample did not reproduce natively: %s inputs %s" % (name, inputs))
                 continue
             c_sat += 1
-            what = "constant-operand program [%s]: inputs a=%s b=%s: real Compute gives %s, documented meaning %s" % (name, inputs[0], inputs[1], nat.get("results"), exp)
+            what = "constant-operand program [%s]%s: inputs a=%s b=%s: real Compute gives %s, documented meaning %s" % (name, literal_class(csrc[name]), inputs[0], inputs[1], nat.get("results"), exp)
             cex = {"property": PROP, "program": csrc[name], "inputs": inputs, "expected": exp, "native": nat.get("results"),
                    "replay_request": {"cmd": "compile", "src": csrc[name], "sizes": [], "inputs": inputs, "nocirc": True}}
         else:
@@ -210,7 +221,8 @@ def main():
                    "replay_request": {"cmd": "compile", "src": csrc[name], "sizes": [], "nocirc": True}}
         km = [k for k in known if k["key"] in what]
         if km:
-            kf_lines.append("KNOWN-FINDING: property=%s %s (%s)" % (PROP, km[0]["what"], what[:200]))
+            if not any(km[0]["what"] in x for x in kf_lines):
+                kf_lines.append("KNOWN-FINDING: property=%s %s (%s)" % (PROP, km[0]["what"], what[:200]))
             continue
         p = os.path.join(e2lib.OUT, PROP, "cex-%d.json" % cexn)
         cexn += 1
@@ -259,7 +271,7 @@ def main():
             vals = [z3.BitVecVal(int(v), w) for v, w in zip(inputs, ws)]
             exp = [str(z3.simplify(r).as_long()) for r in prog.reference(vals)]
             reproduced = nat.get("ok") and nat.get("results") != exp
-            what = "generated program %d: inputs a=%s b=%s: real Compute gives %s, reference semantics %s" % (k, inputs[0], inputs[1], nat.get("results"), exp)
+            what = "generated program %d%s: inputs a=%s b=%s: real Compute gives %s, reference semantics %s" % (k, literal_class(srcs[k]), inputs[0], inputs[1], nat.get("results"), exp)
             if not reproduced:
                 inconcl.append("counterexample did not reproduce natively: " + what)
                 continue
@@ -277,6 +289,12 @@ def main():
             what = "generated program %d: %s: %s" % (k, st, det.get("err"))
             cex = {"property": PROP, "program": srcs[k], "error": det.get("err"), "expected": None,
                    "replay_request": {"cmd": "compile", "src": srcs[k], "sizes": [], "nocirc": True}}
+        km = [kf for kf in known if kf["key"] in what]
+        if km:
+            line = "KNOWN-FINDING: property=%s %s (%s)" % (PROP, km[0]["what"], what[:200])
+            if not any(km[0]["what"] in x for x in kf_lines):
+                kf_lines.append(line)
+            continue
         p = os.path.join(e2lib.OUT, PROP, "cex-%d.json" % cexn)
         cexn += 1
         json.dump(cex, open(p, "w"), indent=1)
